@@ -1,10 +1,14 @@
 #!/bin/bash
-# seedrun.sh <seed-id> <patch> <Cnn> [tier]  — apply patch to scratch worktree /tmp/seedtest, run ./check Cnn against it, restore.
+# seedrun.sh <seed-id> <patch> <Cnn> [tier]
+# Applies the patch to a fresh scratch worktree of /repo's HEAD (/tmp/seedtest-<seed-id>), runs ./check Cnn against it
+# (VERIF_REPO), removes the worktree. /repo itself is never touched. Seeds of one property must run one after another
+# (they share work/<Cnn>).
 id=${1:?}; patch=${2:?}; prop=${3:?}; tier=${4:-quick}
-wt=/tmp/seedtest
-git -C $wt checkout -q -- . || exit 2
-if ! git -C $wt apply "$patch"; then echo "SEEDRUN $id $prop APPLY-FAILED"; exit 2; fi
+wt=/tmp/seedtest-$id
+git -C /repo worktree remove --force $wt >/dev/null 2>&1
+git -C /repo worktree add -q --detach $wt HEAD || exit 2
+if ! git -C $wt apply "$patch"; then echo "SEEDRUN $id $prop APPLY-FAILED"; git -C /repo worktree remove --force $wt; exit 2; fi
 cd /verif && VERIF_REPO=$wt ./check $prop --tier $tier > /verif/work/seedrun-$id-$prop.log 2>&1
 rc=$?
-git -C $wt checkout -q -- .
+git -C /repo worktree remove --force $wt
 echo "SEEDRUN $id $prop rc=$rc $(grep -m3 -E '^VIOLATION' /verif/work/seedrun-$id-$prop.log | tr '\n' ' ')"
